@@ -217,7 +217,7 @@ def symbolic_run(qualname, args):
     eng.params = dict(zip([n for n, _s in sorts], vals))
     eng.is_generator = any(isinstance(n, (_ast.Yield, _ast.YieldFrom)) for n in _ast.walk(_ast.Module(body=F.body, type_ignores=[])))
     if eng.is_generator:
-        st.env["__out__"] = SetV(lambda v: z3.BoolVal(False), 2) if K.returns == "CellSetGen" else ListV(0, lambda i: IntV(0))
+        st.env["__out__"] = SetV(lambda v: z3.BoolVal(False), 2) if K.returns == "CellSetGen" else SetV(lambda v: z3.BoolVal(False), 1) if K.returns == "IntSetGen" else ListV(0, lambda i: IntV(0))
     outs = eng.exec_block(F.body, st)
     if len(outs) != 1:
         raise Unsupported(f"{len(outs)} paths on a concrete input")
@@ -229,7 +229,7 @@ def symbolic_run(qualname, args):
         val = ov if isinstance(ov, SetV) else ov.snapshot("gen")
     elif kind == "fall":
         val = NONE
-    uni = max([len(a) for a in args if hasattr(a, "__len__")] + [len(getattr(a, "pattern", ())) for a in args] + [3])
+    uni = max([len(a) for a in args if hasattr(a, "__len__")] + [len(getattr(a, "pattern", ())) for a in args] + [3] + ([10] if K.returns == "IntSetGen" else []))
     return ("value", from_sym(val, uni + 2))
 
 
@@ -256,6 +256,8 @@ def differential(qualname, args):
     real = real_run(qualname, args)
     if dsl.CONTRACTS[qualname].returns == "CellSetGen" and real[0] == "value":
         real = ("value", {tuple(c) for c in real[1]})
+    if dsl.CONTRACTS[qualname].returns == "IntSetGen" and real[0] == "value":
+        real = ("value", {getattr(v, "value", v) for v in real[1]})  # Enum members by value
     if sym[0] != real[0]:
         return "disagree", f"encoder: {sym}  CPython: {real}"
     if sym[0] == "raise":
